@@ -573,10 +573,30 @@ func nodeText(n ast.Node) string {
 //   pgpLifetimeZeroIsNever : the branch that prints an expiry date also requires the lifetime to be non-zero
 func genPgpFacts() {
 	f := parse("internal/file/pgp.go")
-	fd := findFunc(f, "gpgSignatureAttributes")
-	if fd == nil {
-		die("gpgSignatureAttributes not found")
+	// the function that turns a signature's key lifetime into the Expires attribute (whatever it is called)
+	var fd *ast.FuncDecl
+	for _, d := range f.Decls {
+		if x, ok := d.(*ast.FuncDecl); ok && x.Body != nil && strings.Contains(nodeText(x.Body), "KeyLifetimeSecs") {
+			fd = x
+		}
 	}
+	if fd == nil {
+		die("pgp.go: no function reads KeyLifetimeSecs")
+	}
+	// a key's Created attribute comes from the key packet: gpgPublicKeyAttributes formats <its parameter>.CreationTime
+	keyCreated := false
+	if pa := findFunc(f, "gpgPublicKeyAttributes"); pa != nil && len(pa.Type.Params.List) == 1 && len(pa.Type.Params.List[0].Names) == 1 {
+		param := pa.Type.Params.List[0].Names[0].Name
+		ast.Inspect(pa.Body, func(n ast.Node) bool {
+			if cl, ok := n.(*ast.CompositeLit); ok && len(cl.Elts) == 2 {
+				if name, ok := strLit(cl.Elts[0]); ok && name == "Created" && strings.Contains(nodeText(cl.Elts[1]), param+".CreationTime") {
+					keyCreated = true
+				}
+			}
+			return true
+		})
+	}
+	facts["pgp.keyCreatedFromPacket"] = keyCreated
 	zero := false
 	ast.Inspect(fd.Body, func(n ast.Node) bool {
 		if is, ok := n.(*ast.IfStmt); ok {
@@ -588,7 +608,7 @@ func genPgpFacts() {
 		return true
 	})
 	keeps := pgpKdfKeepsExtra()
-	writeGen("PgpFacts", fmt.Sprintf("def pgpLifetimeZeroIsNever : Bool := %v\ndef pgpKdfKeepsExtra : Bool := %v\n", zero, keeps))
+	writeGen("PgpFacts", fmt.Sprintf("def pgpLifetimeZeroIsNever : Bool := %v\ndef pgpKdfKeepsExtra : Bool := %v\ndef pgpKeyCreatedFromPacket : Bool := %v\n", zero, keeps, keyCreated))
 	facts["pgp.lifetimeZeroIsNever"] = zero
 	facts["pgp.kdfKeepsExtra"] = keeps
 }
